@@ -43,8 +43,8 @@ func nextPort() int {
 }
 
 type sysPeer struct {
-	conn  net.Conn
-	rw    interface {
+	conn net.Conn
+	rw   interface {
 		Read([]byte) (int, error)
 		Write([]byte) (int, error)
 	}
@@ -154,7 +154,9 @@ func runSys(cfg *runCfg, g *gen, n int) (cases []string, dist map[string]int, fa
 		var npMsg *msg.NewProxy
 		var pingMsg *msg.Ping
 		var wcMsg *msg.NewWorkConn
-		uinfo := func(runID string) plugin.UserInfo { return plugin.UserInfo{User: lm.User, Metas: lm.Metas, RunID: runID} }
+		uinfo := func(runID string) plugin.UserInfo {
+			return plugin.UserInfo{User: lm.User, Metas: lm.Metas, RunID: runID}
+		}
 		switch op {
 		case "Login":
 			mk = func() any {
@@ -412,6 +414,15 @@ func runSys(cfg *runCfg, g *gen, n int) (cases []string, dist map[string]int, fa
 		for i := 0; i < 2; i++ {
 			stubs[i].mu.Lock()
 			stubs[i].sc, stubs[i].onlyOp, stubs[i].notes = nil, "none", nil
+			// in two thirds of the sessions some notifications are answered with a failure: a close
+			// notification is not a gate, the others must still be delivered, to every plugin
+			stubs[i].noteFail = 0
+			if g.chance(0.66) {
+				stubs[i].noteFail = uint64(g.intn(1 << 10))
+				if g.chance(0.3) {
+					stubs[i].noteFail = ^uint64(0)
+				}
+			}
 			stubs[i].mu.Unlock()
 		}
 		// plugin 1 is registered for CloseProxy; plugin 2 too in half of the cases, placed FIRST and
@@ -546,6 +557,11 @@ func runSys(cfg *runCfg, g *gen, n int) (cases []string, dist map[string]int, fa
 			txt := fmt.Sprintf("CNotify %s %s", coqList(all), coqList(ns))
 			cases = append(cases, txt)
 			dist["notify:"+how]++
+			stubs[pi].mu.Lock()
+			if stubs[pi].noteFail != 0 {
+				dist["notify-with-failing-replies"]++
+			}
+			stubs[pi].mu.Unlock()
 			dist[fmt.Sprintf("notify-notes:%d", len(notes))]++
 			if len(notes) != expected {
 				fail("impl:close-notification-count", fmt.Sprintf("plugin %d received %d CloseProxy notifications for %d stopped proxies (%s)", pi+1, len(notes), expected, how), txt)
